@@ -260,3 +260,36 @@ func H_C09(cfg int) {
 		verifAssert(len(rec.hdr[HEADER_AccessControlAllowMethods]) == 0, "C09: an actual request received preflight headers")
 	}
 }
+
+// H_C08_two: two CORS filters with different configurations in one chain (container: no restriction;
+// WebService: one symbolic allowed domain, cookies on). What the inner filter grants must follow the inner
+// configuration: credentials are only configured there.
+func H_C08_two(cfg int) {
+	inner := vCorsCfg{domains: vCorsDomains(1, 6), cookies: true}
+	outer := vCorsCfg{}
+	h := vNewH(vCorsTable)
+	c := NewContainer()
+	oc := outer.filter(c)
+	c.Filter(oc.Filter)
+	ws := new(WebService)
+	ws.Path("/t")
+	ic := inner.filter(c)
+	ws.Filter(ic.Filter)
+	ws.Route(ws.GET("/a").To(h.routeFn(0)))
+	c.Add(ws)
+	origin := nondetString("origin", 6)
+	rec := vNewRec()
+	h.dispatch(c, rec, vHdrReq("GET", "/t/a", map[string]string{"Origin": origin}))
+	innerAllows := inner.refOriginAllowed(origin)
+	verifCoverIf("inner-refuses", vAnd(len(origin) > 0, !innerAllows))
+	verifCoverIf("inner-allows", vAnd(len(origin) > 0, innerAllows))
+	verifObserveInt("status", rec.code())
+	if len(rec.hdr[HEADER_AccessControlAllowCredentials]) > 0 {
+		verifAssert(innerAllows, "C08: credentials granted by a filter whose configuration does not allow the origin")
+	}
+	n := len(rec.hdr[HEADER_AccessControlAllowOrigin])
+	verifAssert(vImp(!innerAllows, n <= 1), "C08: a second Access-Control-Allow-Origin was added by a filter whose configuration does not allow the origin")
+	for _, v := range rec.hdr[HEADER_AccessControlAllowOrigin] {
+		verifAssert(v == origin, "C08: Access-Control-Allow-Origin is not the request's Origin verbatim")
+	}
+}
